@@ -256,7 +256,7 @@ pub fn parse_set(v: &Value) -> Result<u64, String> {
 }
 
 pub fn check_case(clause: &str, case: &Value) -> Result<(), String> {
-    if clause.ends_with(".after_disturbance") {
+    if clause.ends_with(".after_disturbance") || clause.ends_with(".concurrent") || clause.ends_with(".concurrent_cold_start") {
         return super::common::replay_after_disturbance(case, check_case);
     }
     match clause {
